@@ -127,7 +127,6 @@ ensures
     must_diagnose(*ty1, *ty_lit) ==> !r,                                              //@C08:no-literal-cast-for-kind-lowering
 ''')
     U.implicit_cast_kw = dict(ret='r', props=['C20', 'C08'],
-                 rewrites=[('D13', 'types::promote_types(', 'promote_types(', 3)],
                  spec='''
 ensures
     // the common type of an arithmetic expression is the promotion of the operand types,
@@ -139,6 +138,7 @@ ensures
     (*op is Div && !(*ty1 is Float) && !(*ty2 is Float)) ==> r == Type::Float(None, IsConst::False),   //@C20,C08:arith-common-type
 ''')
     if arith_op:
+        U.raw('/// asg.rs refers to the functions of types.rs as `types::f`: in this single-module unit that is this module itself\npub mod types { pub use super::*; }\n')
         U.file(A).fn('implicit_cast_type', **U.implicit_cast_kw)
 
     # property clauses derived from the contracts (two-call / lemma-style obligations)
